@@ -340,6 +340,7 @@ impl FaultPlan {
 #[derive(Clone, Debug, Default)]
 pub struct ReadLog {
     pub opened: bool,
+    pub opens: usize,
     pub open_error: Option<ErrK>,
     pub delivered: Vec<u8>,
     pub read_calls: usize,
@@ -426,7 +427,7 @@ pub fn install_disk(
 ) -> Arc<Mutex<ReadLog>> {
     let log = Arc::new(Mutex::new(ReadLog::default()));
     let log2 = log.clone();
-    let mut content = Some(content);
+    let content = Some(content);
     verif::set_disk(Some(Box::new(move |path: &Path| {
         let mut l = log2.lock().unwrap();
         if path != expect_path.as_path() {
@@ -442,18 +443,21 @@ pub fn install_disk(
             l.open_error = Some(e);
             return Err(e.to_io());
         }
-        let mut data = match content.take() {
-            Some(Some(d)) => d,
-            Some(None) => {
+        // Note: a library that opens the file more than once sees the same file each time
+        let mut data = match content.as_ref().and_then(|c| c.clone()) {
+            Some(d) => d,
+            None => {
                 l.open_error = Some(ErrK::NotFound);
                 return Err(ErrK::NotFound.to_io());
             }
-            None => {
-                // second open within one add_file call
-                l.open_error = Some(ErrK::Other);
-                return Err(io::Error::new(ErrorKind::Other, "simulated disk: opened twice"));
-            }
         };
+        l.opens += 1;
+        if l.opens > 1 {
+            // start the log over: the last complete pass is what counts
+            l.delivered.clear();
+            l.eof_seen = false;
+            l.read_error = None;
+        }
         if let Some(t) = plan.truncate_at {
             if t < data.len() {
                 data.truncate(t);
